@@ -1176,6 +1176,7 @@ class Interp:
         b = fn.blocks[bb]
         worlds = [w]
         self._fn = fn
+        self._bb = bb
         for s in b['stmts']:
             k = s['k']
             if k == 'assign':
@@ -1204,6 +1205,7 @@ class Interp:
             elif k == 'return':
                 out.append((None, cw))
             elif k == 'switch':
+                self._fn, self._bb = fn, bb
                 out.extend(self.do_switch(cw, depth, t))
             elif k == 'call':
                 self._fn = fn
@@ -1250,6 +1252,8 @@ class Interp:
                 w2 = self.rule.on_symbranch(self, w, v, val != 0)
                 if w2 is not None:
                     out.append((bbt, w2))
+                elif hasattr(self.rule, 'on_pruned') and self._fn is not None:
+                    self.rule.on_pruned(self._fn, getattr(self, '_bb', None), bbt)      # infeasible under the path facts
             return out
         if v[0] == 'pred':
             # bool: 0 -> false branch, otherwise (or 1) -> true
